@@ -21,8 +21,9 @@ func runOne(t *testing.T, c *Case, work, sched *choice.Source, out *wproto.Out, 
 	out.Begin(id)
 	out.SetOnStuck(func() {
 		c.Work, c.Sched, c.Pol = work.Tape(), sched.Tape(), sched.AuxTape()
-		out.Finding(id, "livelock|never-returned", "livelock", "the run exceeded its scheduler step budget and, left to run freely, still had not returned three seconds later: an endless loop", c)
-		out.End(id, []string{"livelock|never-returned"})
+		sig, msg := out.StuckWhat()
+		out.Finding(id, sig, "livelock", msg, c)
+		out.End(id, []string{sig})
 		out.Count("evaluations", 1)
 		out.Finish("restart", id+1)
 	})
@@ -86,6 +87,9 @@ func runOne(t *testing.T, c *Case, work, sched *choice.Source, out *wproto.Out, 
 	out.Tick(32)
 }
 
+var kindEvery = map[string]int{"c12:dcbig": 8, "c12:dc": 2, "c12:mcflat": 2, "c12:mcsearch": 2}
+var lightKinds = []string{"readers3", "composites", "render", "readers2", "objbuild"}
+
 func TestWorker(t *testing.T) {
 	job, err := wproto.LoadJob()
 	if err != nil {
@@ -96,10 +100,21 @@ func TestWorker(t *testing.T) {
 		t.Fatal(err)
 	}
 	out.StuckFlag = &simsched.Stuck
+	out.StallProbe = simsched.StallProbe
 	tail := racelog.Open()
 	kinds := job.KindList(Kinds)
 	mk := func(i int) (*Case, *choice.Source, *choice.Source) {
-		c := &Case{Property: "C13", Engine: "simsched", Kind: kinds[i%len(kinds)]}
+		kind := kinds[i%len(kinds)]
+		if len(kinds) == len(Kinds) {
+			// time balance: the heavy meshing kinds (seconds per case under the race
+			// detector) take their slot only every few rounds of the list, a light
+			// reader kind takes it otherwise; the list length is coprime to the shard
+			// count, so every shard sees every kind
+			if every := kindEvery[kind]; every > 1 && (i/len(kinds))%every != 0 {
+				kind = lightKinds[(i/len(kinds)+i%len(kinds))%len(lightKinds)]
+			}
+		}
+		c := &Case{Property: "C13", Engine: "simsched", Kind: kind}
 		return c, choice.New(job.Seed, fmt.Sprint("c13-work-", i)), choice.New(job.Seed, fmt.Sprint("c13-sched-", i))
 	}
 	c12.MaxBigCells = 84
